@@ -658,6 +658,17 @@ impl<T: Transport, E: UtpEnvironment> Dispatcher<T, E> {
         // SYNs are older than this one and go first.
         self.cleanup_accept_queue()?;
 
+        // A second copy of the SYN of a connection we already have (duplicated on the way, or
+        // retransmitted) asks for nothing new. It must not take a backlog slot and, above all,
+        // must not be refused: the RESET would name the live connection.
+        if self
+            .streams
+            .contains_key(&(remote, msg.header.connection_id + 1))
+        {
+            trace!("SYN repeats the one of a live stream, ignoring");
+            return Ok(());
+        }
+
         let mut syn = Syn {
             remote,
             header: msg.header,
